@@ -41,6 +41,9 @@ def filtered(c, exclude):
         l2.inv = {n: e for n, e in lp.inv.items() if not drop(n)}
         l2.transition = {n: e for n, e in lp.transition.items() if not drop(n)}
         l2.ghosts = {n: g for n, g in lp.ghosts.items() if not drop(n)}
+        l2.hints = [h for h in lp.hints if not drop(h.split(":")[0].strip())]
+        l2.latch_hints = [h for h in lp.latch_hints if not drop(h.split(":")[0].strip())]
+        l2.cut = [c_ for c_ in lp.cut if not drop(c_)]
         c2.loops[k] = l2
     c2.ensures = {n: e for n, e in c.ensures.items() if not drop(n)}
     return c2
@@ -52,6 +55,8 @@ def generate_lemmas(names):
 
     out = []
     for n in names:
+        if LEMMAS[n].trusted:
+            continue  # an axiom about a library operation: listed among the assumptions, not proved
         out.extend(lemma_obligations(LEMMAS[n]))
     return out
 
@@ -66,6 +71,7 @@ def generate(qualnames, tier="quick", exclude=()):
             continue
         c = filtered(CONTRACTS[q], exclude)
         t0 = time.time()
+        ex = None
         try:
             ex = Exec(q, c, tier)
             obs = ex.run()
@@ -78,6 +84,14 @@ def generate(qualnames, tier="quick", exclude=()):
                     obligations.extend(generate_lemmas([ln]))  # a lemma whose instance is assumed is proved in the same run
         except Unsupported as e:
             info[q] = {"status": "unsupported", "reason": str(e)}
+            # obligations that are violations by themselves (a store to module state / to the scanner object) were
+            # established before the unsupported construct was met: they are kept
+            import z3 as _z3
+
+            for o_ in getattr(ex, "obligations", []):
+                if o_.kind == "frame/write" and _z3.is_false(o_.goal):
+                    o_.hyps = []
+                    obligations.append(o_)
             if os.environ.get("VERIF_DEBUG"):
                 traceback.print_exc()
         except AnchorMismatch as e:
